@@ -556,6 +556,17 @@ static int is_flow_fx(int t)
 	return 0;
 }
 
+/* module-wide FAR tempo state (tempo_mode coarse_tempo fine_tempo); "1 0 0" without FAR extras */
+static void get_far(struct context_data *ctx, int *v)
+{
+	if (HAS_FAR_MODULE_EXTRAS(ctx->m)) {
+		struct far_module_extras *me = FAR_MODULE_EXTRAS(ctx->m);
+		v[0] = me->tempo_mode; v[1] = me->coarse_tempo; v[2] = me->fine_tempo;
+	} else {
+		v[0] = 1; v[1] = 0; v[2] = 0;
+	}
+}
+
 static void put_env(struct context_data *ctx)
 {
 	struct module_data *m = &ctx->m;
@@ -568,10 +579,11 @@ static void put_flow(struct context_data *ctx, int nloops)
 {
 	struct player_data *p = &ctx->p;
 	struct flow_control *f = &p->flow;
-	int i;
-	printf(" %d %d %d %d %d %d %d %d %d %d %d %d %d %d %d %d |", p->speed, p->bpm, p->gvol, p->st26_speed, f->pbreak,
+	int i, fr[3];
+	get_far(ctx, fr);
+	printf(" %d %d %d %d %d %d %d %d %d %d %d %d %d %d %d %d %d %d %d |", p->speed, p->bpm, p->gvol, p->st26_speed, f->pbreak,
 	       f->jump, f->delay, f->jumpline, f->loop_dest, f->rowdelay, f->rowdelay_set, f->jump_in_pat, f->loop_param,
-	       f->loop_start, f->loop_count, f->loop_active_num);
+	       f->loop_start, f->loop_count, f->loop_active_num, fr[0], fr[1], fr[2]);
 	for (i = 0; i < nloops; i++)
 		printf(" %d %d", f->loop[i].start, f->loop[i].count);
 }
@@ -581,7 +593,7 @@ void __wrap_libxmp_process_fx(struct context_data *ctx, struct channel_data *xc,
 {
 	int fxt = fnum == 0 ? e->fxt : e->f2t, fxp = fnum == 0 ? e->fxp : e->f2p;
 	int flowfx = is_flow_fx(fxt), d = 0, nloops = 0;
-	int pre_hdr[4], pre_fl[16], pre_lp[2 * XMP_MAX_CHANNELS];
+	int pre_hdr[4], pre_fl[19], pre_lp[2 * XMP_MAX_CHANNELS];
 	g_fx_calls++;
 	if (ctx->p.flow.loop != NULL && chn >= 0 && chn < ctx->p.virt.virt_channels) {
 		if (g_fx_all)
@@ -611,6 +623,7 @@ void __wrap_libxmp_process_fx(struct context_data *ctx, struct channel_data *xc,
 		pre_fl[5] = f->jump; pre_fl[6] = f->delay; pre_fl[7] = f->jumpline; pre_fl[8] = f->loop_dest; pre_fl[9] = f->rowdelay;
 		pre_fl[10] = f->rowdelay_set; pre_fl[11] = f->jump_in_pat; pre_fl[12] = f->loop_param; pre_fl[13] = f->loop_start;
 		pre_fl[14] = f->loop_count; pre_fl[15] = f->loop_active_num;
+		get_far(ctx, pre_fl + 16);
 		for (i = 0; i < nloops; i++) {
 			pre_lp[2 * i] = f->loop[i].start;
 			pre_lp[2 * i + 1] = f->loop[i].count;
@@ -622,7 +635,7 @@ void __wrap_libxmp_process_fx(struct context_data *ctx, struct channel_data *xc,
 		printf("D fx");
 		put_env(ctx);
 		printf(" | %d %d %d %d %d %d |", pre_hdr[0], pre_hdr[1], pre_hdr[2], pre_hdr[3], fxt, fxp);
-		for (i = 0; i < 16; i++)
+		for (i = 0; i < 19; i++)
 			printf(" %d", pre_fl[i]);
 		printf(" |");
 		for (i = 0; i < 2 * nloops; i++)
@@ -643,10 +656,12 @@ void __wrap_libxmp_process_fx(struct context_data *ctx, struct channel_data *xc,
 /* ------------------------------------------------------------------ */
 /* synthetic modules                                                   */
 /* ------------------------------------------------------------------ */
+static long g_carry_modules, g_carry_jumps;
 static const int flow_fx[] = {
 	FX_JUMP, FX_BREAK, FX_IT_BREAK, FX_EXTENDED, FX_EXTENDED, FX_PATT_DELAY, FX_IT_ROWDELAY, FX_SPEED, FX_SPEED,
 	FX_S3M_SPEED, FX_S3M_BPM, FX_IT_BPM, FX_ICE_SPEED, FX_LINE_JUMP, FX_SPEED_CP, FX_ULT_TEMPO, FX_GLOBALVOL,
-	FX_IT_INSTFUNC	/* S7x: past note cut/off/fade, set NNA (virtual.c pastnote / setnna) */
+	FX_IT_INSTFUNC,	/* S7x: past note cut/off/fade, set NNA (virtual.c pastnote / setnna) */
+	FX_FAR_TEMPO, FX_FAR_F_TEMPO	/* act in modules with FAR extras only (corpus .far files) */
 };
 #define NFLOWFX ((int)(sizeof(flow_fx) / sizeof(flow_fx[0])))
 
@@ -682,10 +697,13 @@ static int create_synth(struct context_data *ctx, char *desc, size_t dsz)
 		FLOW_MODE_OCTALYSER };
 	int i, j, k, ret, quirk = 0, rmode;
 	int density;
+	/* "loop carry": a pattern-loop start recorded on a high row of a long pattern, the loop end effect in the next,
+	 * shorter pattern without a loop start of its own: the loop target lies beyond the pattern being played */
+	int carry = vrng_chance(35), carry_rows[2] = { 0, 0 };
 
 	libxmp_load_prologue(ctx);
 	mod->chn = vrng_range(1, 8);
-	mod->pat = vrng_range(1, 6);
+	mod->pat = vrng_range(carry ? 2 : 1, 6);
 	mod->ins = vrng_range(1, 4);
 	mod->smp = mod->ins;
 	mod->trk = mod->pat * mod->chn;
@@ -705,8 +723,16 @@ static int create_synth(struct context_data *ctx, char *desc, size_t dsz)
 	}
 	if (vrng_chance(85))
 		mod->xxo[0] = vrng_below(mod->pat);
+	if (carry) {
+		if (mod->len < 2)
+			mod->len = 2;
+		mod->xxo[0] = 0;
+		mod->xxo[1] = 1;
+		carry_rows[0] = vrng_range(9, 24);
+		carry_rows[1] = vrng_range(1, 8);
+	}
 	mod->rst = vrng_chance(60) ? 0 : vrng_below(mod->len);
-	mod->spd = vrng_chance(70) ? 6 : vrng_range(1, 31);
+	mod->spd = vrng_chance(70) ? 6 : vrng_range(1, carry ? 6 : 31);
 	mod->bpm = vrng_chance(70) ? 125 : vrng_range(20, 255);
 
 	if (libxmp_init_pattern(mod) < 0)
@@ -715,6 +741,8 @@ static int create_synth(struct context_data *ctx, char *desc, size_t dsz)
 		int rows = rowchoices[vrng_below(11)];
 		if (vrng_chance(20))
 			rows = vrng_range(1, 64);
+		if (carry && i < 2)
+			rows = carry_rows[i];
 		if (libxmp_alloc_pattern_tracks(mod, i, rows) < 0)
 			return -1;
 	}
@@ -786,6 +814,27 @@ static int create_synth(struct context_data *ctx, char *desc, size_t dsz)
 				}
 			}
 		}
+	}
+	if (carry) {
+		/* loop start on row ra >= rows(pattern 1) of pattern 0, channel c; loop end on row rb of pattern 1, same channel (the
+		 * global-target modes take it from any channel); nothing else in the rows in between */
+		int c = vrng_below(mod->chn), ra = vrng_range(carry_rows[1], carry_rows[0] - 1), rb = vrng_below(carry_rows[1]);
+		int c2 = vrng_chance(70) ? c : (int)vrng_below(mod->chn);
+		struct xmp_event *e;
+		for (j = 0; j < mod->chn; j++) {
+			struct xmp_track *t0 = mod->xxt[mod->xxp[0]->index[j]], *t1 = mod->xxt[mod->xxp[1]->index[j]];
+			for (k = ra; k < t0->rows; k++)
+				t0->event[k].fxt = t0->event[k].fxp = t0->event[k].f2t = t0->event[k].f2p = 0;
+			for (k = 0; k <= rb && k < t1->rows; k++)
+				t1->event[k].fxt = t1->event[k].fxp = t1->event[k].f2t = t1->event[k].f2p = 0;
+		}
+		e = &mod->xxt[mod->xxp[0]->index[c]]->event[ra];
+		e->fxt = FX_EXTENDED;
+		e->fxp = EX_PATTERN_LOOP << 4;
+		e = &mod->xxt[mod->xxp[1]->index[c2]]->event[rb];
+		e->fxt = FX_EXTENDED;
+		e->fxp = (EX_PATTERN_LOOP << 4) | vrng_range(1, 3);
+		g_carry_modules++;
 	}
 	m->quirk |= quirk;
 	m->read_event_type = rmode;
@@ -1122,6 +1171,9 @@ static void report_ok_frame(xmp_context c, struct context_data *ctx, const int *
 	       post[17], post[8], post[9], g_mid_taken, g_mid_taken ? g_mid[0] : 0, g_mid_taken ? g_mid[1] : 0,
 	       g_mid_taken ? g_mid[2] : 0, g_mid_taken ? g_mid[3] : 0);
 	g_frames++;
+	/* a pattern-loop jump whose target lies at or beyond the end of the pattern being played (statistics) */
+	if (!g_mid_taken && post[3] == 0 && pre[10] == 0 && pre[14] >= 0 && pre[14] >= pre[16])
+		g_carry_jumps++;
 	if (g_mid_taken)
 		g_repos++;
 	else if (post[0] != pre[0] || (post[3] == 0 && post[2] <= pre[2] && pre[3] >= 0))
@@ -1263,7 +1315,7 @@ static int do_buffer(xmp_context c, struct context_data *ctx, int frameno, int r
  * record S1 is dumped.  The driver computes S1 from S0 with Fx.readRow + Seq.st26Step. */
 #define FXCH 4
 struct fx_cfg {
-	int rmode, quirk, flow, flags, gvolbase;
+	int rmode, quirk, flow, flags, gvolbase, far;
 	double tf;
 };
 
@@ -1306,6 +1358,17 @@ static int create_fx_module(struct context_data *ctx, const struct fx_cfg *cf)
 	m->flow_mode = cf->flow;
 	m->time_factor = cf->tf;
 	m->gvolbase = cf->gvolbase;
+	if (cf->far) {
+		/* what far_load.c does: module extras, initial coarse tempo from the header, speed / tempo from it */
+		struct far_module_extras *me;
+		if (libxmp_far_new_module_extras(m) != 0)
+			return -1;
+		me = FAR_MODULE_EXTRAS(*m);
+		me->init_coarse_tempo = me->coarse_tempo = cf->far - 1;
+		me->fine_tempo = 0;
+		me->tempo_mode = 1;
+		libxmp_far_translate_tempo(1, 0, me->coarse_tempo, &me->fine_tempo, &mod->spd, &mod->bpm);
+	}
 	libxmp_load_epilogue(ctx);
 	ret = libxmp_prepare_scan(ctx);
 	if (ret >= 0)
@@ -1320,17 +1383,28 @@ static const int setup_fx[] = {
 };
 
 /* a flow effect without note delay (a delayed event would fire inside a later frame) */
+static int g_fx_far;	/* the module of this configuration carries FAR extras */
 static void gen_setup_fx(uint8 *t, uint8 *pr)
 {
 	int x = setup_fx[vrng_below((int)(sizeof(setup_fx) / sizeof(setup_fx[0])))];
 	int v = vrng_chance(30) ? (int)vrng_below(4) : (int)vrng_below(256);
+	if (g_fx_far && vrng_chance(60)) {
+		/* FAR tempo effects: coarse 0..15 / mode, fine up / down (mostly down, to reach negative tempos) / reset */
+		if (vrng_chance(45)) {
+			x = FX_FAR_TEMPO;
+			v = vrng_chance(80) ? (int)vrng_below(16) : (vrng_chance(70) ? (int)vrng_range(1, 2) << 4 : (int)vrng_below(256));
+		} else {
+			x = FX_FAR_F_TEMPO;
+			v = vrng_chance(60) ? (int)vrng_range(8, 15) : (vrng_chance(70) ? (int)vrng_range(1, 15) << 4 : 0);
+		}
+	}
 	if (x == FX_EXTENDED)
 		v = ((vrng_chance(70) ? EX_PATTERN_LOOP : EX_PATT_DELAY) << 4) | vrng_below(vrng_chance(50) ? 3 : 16);
 	*t = (uint8)x;
 	*pr = (uint8)v;
 }
 
-static long g_fxrow_n, g_fxrow_flow, g_fxrow_partner, g_tslide_n;
+static long g_fxrow_n, g_fxrow_flow, g_fxrow_partner, g_tslide_n, g_far_negative, g_far_oldmode;
 static int g_fx_extreme_tf;
 
 static void put_chan_events(struct context_data *ctx, int pat, int row, const int *vm)
@@ -1359,14 +1433,16 @@ static void put_flow_w(struct context_data *ctx, int nloops, int gvol_wild)
 {
 	struct player_data *p = &ctx->p;
 	struct flow_control *f = &p->flow;
-	int i;
+	int i, fr[3];
 	printf(" %d %d", p->speed, p->bpm);
 	if (gvol_wild)
 		printf(" *");
 	else
 		printf(" %d", p->gvol);
-	printf(" %d %d %d %d %d %d %d %d %d %d %d %d %d |", p->st26_speed, f->pbreak, f->jump, f->delay, f->jumpline, f->loop_dest,
-	       f->rowdelay, f->rowdelay_set, f->jump_in_pat, f->loop_param, f->loop_start, f->loop_count, f->loop_active_num);
+	get_far(ctx, fr);
+	printf(" %d %d %d %d %d %d %d %d %d %d %d %d %d %d %d %d |", p->st26_speed, f->pbreak, f->jump, f->delay, f->jumpline, f->loop_dest,
+	       f->rowdelay, f->rowdelay_set, f->jump_in_pat, f->loop_param, f->loop_start, f->loop_count, f->loop_active_num,
+	       fr[0], fr[1], fr[2]);
 	for (i = 0; i < nloops; i++)
 		printf(" %d %d", f->loop[i].start, f->loop[i].count);
 }
@@ -1434,6 +1510,15 @@ static int fx_experiment(xmp_context c, struct context_data *ctx, int fxt, int f
 		vm[k] = ctx->p.xc_data[k].vol.memory;
 	gw = row_has_gvolslide(ctx, pat, 0) || row_has_gvolslide(ctx, pat, r);
 	pre_bpm = ctx->p.bpm;
+	if (g_fx_far) {
+		int fr[3];
+		static const int base[16] = { 256, 128, 64, 42, 32, 25, 21, 18, 16, 14, 12, 11, 10, 9, 9, 8 };
+		get_far(ctx, fr);
+		if (fr[1] >= 0 && fr[1] < 16 && base[fr[1]] + fr[2] < 0)
+			g_far_negative++;	/* statistics only */
+		if (fr[0] == 0)
+			g_far_oldmode++;
+	}
 	printf("D fxrow");
 	put_env(ctx);
 	printf(" | %d %d 0 |", o, r);
@@ -1516,9 +1601,19 @@ static int run_fxall(uint64_t seed, int cfgidx, int thorough)
 	cf.tf = tfs[vrng_below(5)];
 	/* configurations 1000+: time factors at which (int)(0.5 + time_factor * XMP_MIN_BPM / 10) leaves the byte range
 	 * (xmp_set_tempo_factor(12.8) -> 256, (0.02) -> 0); flow effects only */
-	g_fx_extreme_tf = cfgidx >= 1000;
+	g_fx_extreme_tf = cfgidx >= 1000 && cfgidx < 2000;
 	if (g_fx_extreme_tf)
 		cf.tf = (cfgidx & 1) ? 0.2 : 128.0;
+	/* configurations 2000+: a module with FAR extras (what far_load.c sets up), initial coarse tempo 0..15 */
+	cf.far = 0;
+	if (cfgidx >= 2000) {
+		cf.far = 1 + (cfgidx % 16);
+		cf.rmode = READ_EVENT_MOD;
+		cf.quirk = QUIRK_VSALL | QUIRK_PBALL | QUIRK_VIBALL;
+		cf.tf = FAR_TIME_FACTOR;
+		cf.flags = 0;
+	}
+	g_fx_far = cf.far;
 	g_nseen = 0;
 	c = xmp_create_context();
 	ctx = (struct context_data *)c;
@@ -1530,8 +1625,8 @@ static int run_fxall(uint64_t seed, int cfgidx, int thorough)
 	}
 	if (cf.flags)
 		xmp_set_player(c, XMP_PLAYER_FLAGS, cf.flags);
-	printf("B fxall %llu cfg=%d rmode=%d quirk=%#x flow=%#x flags=%d tf=%g gvolbase=%d\n", (unsigned long long)seed, cfgidx,
-	       cf.rmode, cf.quirk, cf.flow, cf.flags, cf.tf, cf.gvolbase);
+	printf("B fxall %llu cfg=%d rmode=%d quirk=%#x flow=%#x flags=%d tf=%g gvolbase=%d far=%d\n", (unsigned long long)seed, cfgidx,
+	       cf.rmode, cf.quirk, cf.flow, cf.flags, cf.tf, cf.gvolbase, cf.far);
 	fprintf(stderr, "CASE fxall %llu cfg=%d\n", (unsigned long long)seed, cfgidx);
 	if (xmp_start_player(c, 8000, XMP_FORMAT_MONO) < 0) {
 		printf("N start_failed 1\nZ\n");
@@ -1541,7 +1636,7 @@ static int run_fxall(uint64_t seed, int cfgidx, int thorough)
 	}
 	for (lane = 0; lane < 2 && !bad; lane++) {
 		for (fxt = 0; fxt < 256 && !bad; fxt++) {
-			if (g_fx_extreme_tf && !is_flow_fx(fxt))
+			if ((g_fx_extreme_tf || (g_fx_far && !thorough)) && !is_flow_fx(fxt))
 				continue;
 			if (thorough || is_flow_fx(fxt)) {
 				for (k = 0; k < 256 && !bad; k++)
@@ -1782,12 +1877,12 @@ static void print_stats(void)
 	printf("N frames %ld\nN ends %ld\nN ctl %ld\nN inject %ld\nN repos %ld\nN rowadv %ld\nN ordadv %ld\nN loopinc %ld\n"
 	       "N tfcalls %ld\nN capped %ld\nN minclamp %ld\nN st26 %ld\nN assume %ld\nN vops %ld\nN vdump %ld\nN reloc %ld\nN vfail %ld\nN steal %ld\n"
 	       "N ordwf_seq_rst %ld\nN ordwf_seq_entry %ld\nN ordwf_seq_reach %ld\nN ordwf_seq_fail %ld\nN tf_accepted %ld\nN tf_refused %ld\nN vfieldops %ld\nN vfielddump %ld\n"
-	       "N fx_calls %ld\nN fx_dumped %ld\nN fx_dumped_flowfx %ld\n"
+	       "N fx_calls %ld\nN fx_dumped %ld\nN fx_dumped_flowfx %ld\nN loopcarry_modules %ld\nN loopjump_beyond_pattern %ld\n"
 	       "N pbuf_calls %ld\nN pbuf_frames %ld\nN pbuf_end %ld\nN pbuf_end_looplimit %ld\nN pbuf_noframe %ld\nN pbuf_multiframe %ld\nN pbuf_steps_after_end %ld\nN pbuf_reset %ld\n",
 	       g_frames, g_ends, g_ctl, g_inject, g_repos, g_rowadv, g_ordadv, g_loopinc, g_tfcalls, g_capped, g_minclamp,
 	       g_st26, g_assume, g_stat_vops, g_stat_vdump, g_stat_reloc, g_stat_vfail, g_stat_steal, g_ow_rst, g_ow_entry,
 	       g_ow_reach, g_ow_fail, g_tf_acc, g_tf_ref, g_stat_fops, g_stat_fdump,
-	       g_fx_calls, g_fx_dumped, g_fx_flow_dumped,
+	       g_fx_calls, g_fx_dumped, g_fx_flow_dumped, g_carry_modules, g_carry_jumps,
 	       g_pb_calls, g_pb_frames, g_pb_end, g_pb_end_limit, g_pb_zero, g_pb_multi, g_pb_after_end, g_pb_reset);
 }
 
@@ -1803,8 +1898,8 @@ int main(int argc, char **argv)
 			run_fxall(strtoull(argv[2], NULL, 10), i, atoi(argv[5]));
 			fflush(stdout);
 		}
-		printf("N fxrow %ld\nN fxrow_flowfx %ld\nN fxrow_partner %ld\nN fx_calls %ld\nN tslide %ld\n", g_fxrow_n, g_fxrow_flow, g_fxrow_partner,
-		       g_fx_calls, g_tslide_n);
+		printf("N fxrow %ld\nN fxrow_flowfx %ld\nN fxrow_partner %ld\nN fx_calls %ld\nN tslide %ld\nN far_rows_negative_tempo %ld\nN far_rows_old_mode %ld\n",
+		       g_fxrow_n, g_fxrow_flow, g_fxrow_partner, g_fx_calls, g_tslide_n, g_far_negative, g_far_oldmode);
 		return 0;
 	}
 	if (argc >= 6 && !strcmp(argv[1], "case")) {
